@@ -90,6 +90,7 @@ pub trait Lc: 'static {
         CommitterKey = Self::Params,
         VerifierKey = Self::Params,
         Proof = RealProof,
+        BatchProof = Vec<RealProof>,
         Error = Error,
     >;
     const NAME: &'static str;
@@ -632,4 +633,155 @@ pub fn describe<S: Lc>(run: &Run<S>) -> String {
         run.comms.iter().map(|c| (c.metadata.n_rows, c.metadata.n_cols, c.metadata.n_ext_cols)).collect::<Vec<_>>(),
         run.comms.iter().map(|c| calc_t::<S>(&run.pp, c.metadata.n_ext_cols)).collect::<Vec<_>>()
     )
+}
+
+
+// ------------------------------------------------------------------------------------------------
+// C11: the recorded sponge log in the model's event vocabulary, `lincode.transcript` requests
+// ------------------------------------------------------------------------------------------------
+
+fn tev(tag: usize, rest: Vec<Val>) -> Val {
+    let mut v = vec![wire::nat(tag)];
+    v.extend(rest);
+    Val::L(v)
+}
+pub fn bytes_val(b: &[u8]) -> Val {
+    Val::L(b.iter().map(|x| wire::nat(*x as usize)).collect())
+}
+
+/// One absorbed byte string, decoded by STRUCTURE only: a concatenation of canonical field elements
+/// `[4,[x..]]`; a length-prefixed byte string (a serialized digest) `[5,bytes]`; anything else (the
+/// index bytes) `[6,bytes]`.
+pub fn decode_absorb(b: &[u8]) -> Val {
+    let f = Fr::zero().compressed_size();
+    if b.len() % f == 0 {
+        let xs: Option<Vec<Fr>> = b.chunks(f).map(|c| Fr::deserialize_compressed(c).ok()).collect();
+        if let Some(xs) = xs {
+            return tev(4, vec![wire::fes(&xs)]);
+        }
+    }
+    if b.len() >= 8 && u64::from_le_bytes(b[..8].try_into().unwrap()) as usize == b.len() - 8 {
+        return tev(5, vec![bytes_val(&b[8..])]);
+    }
+    tev(6, vec![bytes_val(b)])
+}
+
+pub fn decode_log(log: &[Event]) -> Val {
+    Val::L(
+        log.iter()
+            .map(|e| match e {
+                Event::Absorb(b) => decode_absorb(b),
+                Event::SqueezeFe(sizes, _) if sizes.iter().all(|s| s.is_none()) => tev(10, vec![wire::nat(sizes.len())]),
+                Event::SqueezeFe(sizes, _) => tev(12, vec![wire::nat(sizes.len())]),
+                Event::SqueezeBytes(n, _) => tev(11, vec![wire::nat(*n)]),
+                Event::SqueezeBits(n) => tev(13, vec![wire::nat(*n)]),
+            })
+            .collect(),
+    )
+}
+
+/// the recorded answers of the squeezes, aligned by squeeze number: (`sqf`, `sqb`)
+pub fn squeezed(log: &LogSponge) -> (Val, Val) {
+    use std::str::FromStr;
+    let mut f = vec![];
+    let mut b = vec![];
+    for e in &log.log {
+        match e {
+            Event::SqueezeFe(_, outs) => {
+                f.push(wire::fes(&outs.iter().map(|o| Fr::from_str(o).unwrap()).collect::<Vec<_>>()));
+                b.push(Val::L(vec![]));
+            }
+            Event::SqueezeBytes(_, bytes) => {
+                f.push(Val::L(vec![]));
+                b.push(bytes_val(bytes));
+            }
+            Event::SqueezeBits(_) => {
+                f.push(Val::L(vec![]));
+                b.push(Val::L(vec![]));
+            }
+            Event::Absorb(_) => {}
+        }
+    }
+    (Val::L(f), Val::L(b))
+}
+
+/// the arguments every `lincode.transcript` request carries
+pub fn transcript_req<S: Lc>(side: usize, pp: &S::Params, comms: &[MComm], log: &LogSponge) -> Req {
+    let (sqf, sqb) = squeezed(log);
+    let (d0, d1) = pp.distance();
+    let mut hints: Vec<Val> = vec![];
+    for c in comms {
+        if let Some(t) = calc_t::<S>(pp, c.metadata.n_ext_cols) {
+            hints.push(wire::nats(&[c.metadata.n_ext_cols, t]));
+        }
+    }
+    Req::new("lincode.transcript")
+        .arg("side", wire::nat(side))
+        .arg("kind", wire::nat(S::KIND))
+        .arg("wf", wire::boolean(pp.check_well_formedness()))
+        .arg("lam", wire::nat(pp.sec_param()))
+        .arg("d0", wire::nat(d0))
+        .arg("d1", wire::nat(d1))
+        .arg("hints", Val::L(hints))
+        .arg("sqf", sqf)
+        .arg("sqb", sqb)
+}
+
+pub fn comm_args(mut req: Req, comms: &[MComm], labels: bool) -> Req {
+    for (i, c) in comms.iter().enumerate() {
+        if labels {
+            req = req.arg(&format!("label_{}", i), wire::label(&label(i)));
+        }
+        req = req
+            .arg(&format!("nrows_{}", i), wire::nat(c.metadata.n_rows))
+            .arg(&format!("ncols_{}", i), wire::nat(c.metadata.n_cols))
+            .arg(&format!("next_{}", i), wire::nat(c.metadata.n_ext_cols))
+            .arg(&format!("root_{}", i), bytes_val(&c.root));
+    }
+    req
+}
+
+pub fn state_args(mut req: Req, states: &[MState]) -> Req {
+    for (i, st) in states.iter().enumerate() {
+        req = req.arg(&format!("mat_{}", i), wire::fess(&st.mat.entries)).arg(&format!("ext_{}", i), wire::fess(&st.ext_mat.entries));
+    }
+    req
+}
+
+/// proof `i` of a request, its Merkle paths verified (with the real library code) against `root`
+pub fn proof_args<S: Lc>(mut req: Req, pp: &S::Params, i: usize, p: &MProof, root: &Vec<u8>, with_root: bool) -> Req {
+    let mut pathok = vec![];
+    for (j, path) in p.opening.paths.iter().enumerate() {
+        let ok = match p.opening.columns.get(j) {
+            Some(col) => path.verify(&(), &(), root, col_hash(col)).unwrap_or(false),
+            None => true,
+        };
+        pathok.push(ok as usize);
+    }
+    req = req
+        .arg(&format!("v_{}", i), wire::fes(&p.opening.v))
+        .arg(&format!("pwf_{}", i), opt_fes(&p.well_formedness))
+        .arg(&format!("cols_{}", i), wire::fess(&p.opening.columns))
+        .arg(&format!("leafidx_{}", i), wire::nats(&p.opening.paths.iter().map(|q| q.leaf_index).collect::<Vec<_>>()))
+        .arg(&format!("pathok_{}", i), wire::nats(&pathok))
+        .arg(&format!("ev_{}", i), opt_fes(&encode::<S>(pp, &p.opening.v)));
+    if let Some(w) = &p.well_formedness {
+        req = req.arg(&format!("ewf_{}", i), opt_fes(&encode::<S>(pp, w)));
+    }
+    if with_root {
+        req = req.arg(&format!("proot_{}", i), bytes_val(root));
+    }
+    req
+}
+
+/// queue a `lincode.transcript` request whose reply must carry the recorded log
+pub fn ask_transcript(ctx: &mut Ctx, id: &str, req: Req, log: &LogSponge, mut extra: Vec<(String, Expect)>, refuse: Option<String>) {
+    let out = match refuse {
+        Some(k) => ImplOutcome::Refuse(k),
+        None => {
+            extra.push(("log".into(), Expect::Raw(decode_log(&log.log))));
+            ImplOutcome::Ok(extra)
+        }
+    };
+    ctx.ses.ask(id, req, out);
 }
